@@ -515,6 +515,50 @@ def get_by_kid(n: int, k0: str, k1: str, k2: str, has_q: bool, q: str) -> bool:
     return (r is want[0]) if want else r is None
 
 
+_SET_POOL = None
+
+
+def _set_pool():
+    global _SET_POOL
+    if _SET_POOL is None:
+        from vlib import refjose as R
+        _SET_POOL = {"oct": [R.test_key(k) for k in ("oct16", "oct24", "oct32")], "RSA": [R.test_key("RSA2048"), R.test_key("RSA1024"), R.public_jwk(R.test_key("RSA2048"))],
+                     "EC": [R.test_key(k) for k in ("P-256", "P-384", "P-521")], "OKP": [R.test_key(k) for k in ("Ed25519", "X25519", "Ed448")]}
+    return _SET_POOL
+
+
+def import_set(n: int, t0: int, t1: int, t2: int, has0: bool, has1: bool, has2: bool) -> bool:
+    """
+    PRE: 1 <= n <= 3 and 0 <= t0 <= 3 and 0 <= t1 <= 3 and 0 <= t2 <= 3 and t0 != 1 and t1 != 1
+    PRE: (n > 1 or t1 == 0) and (n > 2 or t2 == 0)
+    POST: _
+    """
+    # (RSA only in the last position: parsing 2048-bit integers under tracing is slow)
+    # KeySet.import_key_set keeps every entry of a JWKS document, in order, with its material, whether or not the entries carry a kid;
+    # afterwards every key has a kid (its own if given) and exporting returns the same keys
+    rt.tick()
+    entries = []
+    for i, (t, has) in enumerate(((t0, has0), (t1, has1), (t2, has2))[:n]):
+        d = dict(_set_pool()[TYPES[t]][i])               # real, distinct JWKs (no stubs: import_key_set parses the material eagerly)
+        if has:
+            d["kid"] = "kid-%d" % i
+        entries.append(d)
+    given = ice.jcopy(entries)
+    try:
+        ks = KeySet.import_key_set({"keys": entries})
+        out = ks.as_dict()["keys"]
+    except Exception:  # noqa
+        return False
+    if len(ks.keys) != n or len(out) != n:
+        return False
+    for g, k, x in zip(given, ks.keys, out):
+        if k.key_type != g["kty"] or any(k.dict_value.get(m) != g[m] or x.get(m) != g[m] for m in REQUIRED[g["kty"]]):
+            return False
+        if k.kid is None or ("kid" in g and k.kid != g["kid"]) or x.get("kid") != k.kid:
+            return False
+    return True
+
+
 def set_export_import(t0: int, t1: int, private: Optional[bool], p0: bool, p1: bool) -> bool:
     """
     pre: 0 <= t0 <= 3 and 0 <= t1 <= 3
@@ -578,6 +622,27 @@ def replay(func, call):
     warnings.simplefilter("ignore")
     from vlib import refjose as R
     args = eval("(" + call + ",)")
+    if func == "import_set":
+        n, t0, t1, t2, has0, has1, has2 = args
+        entries = []
+        for i, (t, has) in enumerate(((t0, has0), (t1, has1), (t2, has2))[:n]):
+            j = dict(_set_pool()[TYPES[t]][i])
+            if has:
+                j["kid"] = "kid-%d" % i
+            entries.append(j)
+        try:
+            ks = KeySet.import_key_set({"keys": [dict(e) for e in entries]})
+            out = ks.as_dict()["keys"]
+        except Exception as e:  # noqa
+            return {"violated": True, "key": "c14-import-set", "detail": "import_key_set failed: %r" % (e,)}
+        probs = []
+        if len(ks.keys) != n or len(out) != n:
+            probs.append("%d entries (kids %r) imported as %d keys" % (n, [e.get("kid") for e in entries], len(ks.keys)))
+        else:
+            for e, k in zip(entries, ks.keys):
+                if any(k.dict_value.get(m) != e[m] for m in REQUIRED[e["kty"]]) or ("kid" in e and k.kid != e["kid"]) or k.kid is None:
+                    probs.append("entry %r came back as %r" % (e.get("kid"), k.kid))
+        return {"violated": bool(probs), "key": "c14-import-set", "detail": "; ".join(probs) or "fine"}
     if func == "generated_public":
         kty_i, idx, auto_kid, via_registry, with_params, via_set = args
         kty = TYPES[kty_i]
